@@ -273,6 +273,9 @@ def normalize(model):
     nsw = lower_switches(model)
     if nsw:
         notes.append("%d switch statement(s) lowered to if / else-if chains" % nsw)
+    nic = index_cursor_reads(model)
+    if nic:
+        notes.append("%d read cursor(s) (*p++ sequences) rewritten as subscripts of the initial pointer" % nic)
     ntr = ternary_returns_to_if(model, known)
     if ntr:
         notes.append("%d ternary return(s) with a helper call in an arm rewritten as if / else" % ntr)
@@ -1251,6 +1254,83 @@ def ternary_returns_to_if(model, known):
                     return _mk("CompoundStmt", [r_], file=s_.get("file"), line=s_.get("line"))
                 st[i] = _mk("IfStmt", [kids(e)[0], ret(kids(e)[1]), ret(kids(e)[2])], file=s_.get("file"), line=s_.get("line"), col=s_.get("col"))
                 n += 1
+    return n
+
+
+def index_cursor_reads(model):
+    """`T *p = E; a = *p++; b = *p++; c = *p;` - a cursor that is only ever stepped by the reads themselves, all of them plain
+    statements of the block that declares it: the k-th read is p[k] of the initial p (the rules read subscripts)."""
+    n = 0
+    for f in model.funcs.values():
+        rel = model.rel(f.file) or ""
+        if not rel.startswith(("src/", "include/")) or f.body is None:
+            continue
+        for blk in walk(f.body):
+            if blk["kind"] != "CompoundStmt":
+                continue
+            st = blk.get("inner") or []
+            for i, d in enumerate(st):
+                if d["kind"] != "DeclStmt":
+                    continue
+                for vd in kids(d):
+                    if vd["kind"] != "VarDecl" or not kids(vd) or not (vd.get("type") or "").rstrip().endswith("*"):
+                        continue
+                    vid = vd.get("id")
+                    refs_all = [x for x in walk(f.body) if x["kind"] == "DeclRefExpr" and x.get("ref", {}).get("id") == vid]
+                    if not refs_all:
+                        continue
+                    plan = []          # (holder node, index in holder, k)
+                    k = 0
+                    ok = True
+                    seen = 0
+                    stepped = False
+                    for s_ in st[i + 1:]:
+                        here = [x for x in walk(s_) if x["kind"] == "DeclRefExpr" and x.get("ref", {}).get("id") == vid]
+                        if not here:
+                            continue
+                        if any(y["kind"] in ("IfStmt", "ForStmt", "WhileStmt", "DoStmt", "SwitchStmt", "ConditionalOperator") or
+                               (y["kind"] == "BinaryOperator" and y.get("opcode") in ("&&", "||")) for y in walk(s_)):
+                            ok = False
+                            break
+                        # every reference in this statement must be *p++ or *p
+                        for x in walk(s_):
+                            ch = x.get("inner") or []
+                            for j, c in enumerate(ch):
+                                c0 = c
+                                if c0["kind"] == "UnaryOperator" and c0.get("opcode") == "*":
+                                    o = strip(kids(c0)[0], casts=False)
+                                    while o["kind"] == "ParenExpr":
+                                        o = kids(o)[0]
+                                    if o["kind"] == "UnaryOperator" and o.get("opcode") == "++" and o.get("isPostfix"):
+                                        t = strip(kids(o)[0], casts=False)
+                                        if t["kind"] == "DeclRefExpr" and t["ref"].get("id") == vid:
+                                            plan.append((x, j, k, t, c0))
+                                            k += 1
+                                            seen += 1
+                                            stepped = True
+                                            continue
+                                    if o["kind"] in ("ImplicitCastExpr",) and kids(o) and kids(o)[0]["kind"] == "DeclRefExpr" and \
+                                            kids(o)[0]["ref"].get("id") == vid:
+                                        plan.append((x, j, k, kids(o)[0], c0))
+                                        seen += 1
+                                        continue
+                                    if o["kind"] == "DeclRefExpr" and o["ref"].get("id") == vid:
+                                        plan.append((x, j, k, o, c0))
+                                        seen += 1
+                                        continue
+                        if seen != sum(1 for s2 in st[i + 1:st.index(s_) + 1] for x in walk(s2)
+                                       if x["kind"] == "DeclRefExpr" and x.get("ref", {}).get("id") == vid):
+                            ok = False
+                            break
+                    if not ok or not stepped or seen != len(refs_all):
+                        continue
+                    for holder, j, kk, ref, deref in plan:
+                        idx = _mk("IntegerLiteral", [], value=str(kk), type="int", file=deref.get("file"), line=deref.get("line"))
+                        base = _mk("ImplicitCastExpr", [copy.deepcopy(ref)], type=vd.get("type"), castKind="LValueToRValue",
+                                   file=deref.get("file"), line=deref.get("line"))
+                        holder["inner"][j] = _mk("ArraySubscriptExpr", [base, idx], type=deref.get("type"), file=deref.get("file"),
+                                                 line=deref.get("line"), col=deref.get("col"))
+                    n += 1
     return n
 
 
